@@ -264,6 +264,8 @@ def c20_signatures(job, r):
     if sim.get("alive_at_main_return"):
         for t in sim["alive_at_main_return"]:
             out.append("goroutine-alive-at-return created at site %d" % t["create_site"])
+    if r.get("dup_ids"):
+        out.append("two summaries were handed the same id by the shared id counter (lost update)")
     if job["kind"] == "mappar":
         mp = r.get("mappar")
         if mp is not None:
@@ -645,9 +647,9 @@ def check_c06(tier, seed):
     bdir = build()
     binary = os.path.join(bdir, "simharness-norace")
     st = Stats()
-    nprog, nseeds = (30, 5) if tier == "quick" else (400, 12)
+    nprog, nseeds = (30, 5) if tier == "quick" else (160, 8)
     progs = [sysa.gen_program(seed + 6, i) for i in range(nprog)]
-    for k in range(16 if tier == "quick" else 80):
+    for k in range(16 if tier == "quick" else 40):
         progs.append({"kind": "src", "name": "pathfam-%d-%d" % (seed, k), "text": tgen.pathfam(Rng(seed * 17 + k))})
     observations = collections.Counter()
     cur = {"b": binary}  # the binary the current exploration uses (replays must use the same instrumentation)
@@ -696,8 +698,8 @@ def check_c06(tier, seed):
     # a depth at which a flow first appears is where an order-dependent depth bookkeeping would cut it in some orders.
     crit_runs = 0
     drng = Rng(seed ^ 0xDE97)
-    dprogs = progs[: (16 if tier == "quick" else 200)]
-    for k in range(8 if tier == "quick" else 60):
+    dprogs = progs[: (16 if tier == "quick" else 80)]
+    for k in range(8 if tier == "quick" else 30):
         dprogs.append({"kind": "src", "name": "diamond-%d-%d" % (seed, k), "text": tgen.diamond(Rng(seed * 31 + k))})
     djobs = []
     for prog in dprogs:
@@ -746,7 +748,7 @@ def check_c06(tier, seed):
         bdir2 = build(skip_pkgs="internal/zzverif", tag="ptr")
         n0 = st.runs
         cur["b"] = os.path.join(bdir2, "simharness-norace")
-        explore(os.path.join(bdir2, "simharness-norace"), bdir2, tier, seed + 2, progs[:120], VARIANTS_C06[:3], 6, st, rep,
+        explore(os.path.join(bdir2, "simharness-norace"), bdir2, tier, seed + 2, progs[:60], VARIANTS_C06[:3], 6, st, rep,
                 "C06", on_result)
         ptr_runs = st.runs - n0
         cur["b"] = binary
@@ -789,8 +791,9 @@ def check_c17(tier, seed):
     bdir = build()
     binary = os.path.join(bdir, "simharness-norace")
     st = Stats()
-    nprog, nseeds = (30, 4) if tier == "quick" else (400, 10)
-    progs = [sysa.gen_program(seed + 17, i) for i in range(nprog)]
+    nprog, nseeds = (30, 4) if tier == "quick" else (240, 8)
+    # every third program has a second package (calls across packages, the chain of package initialisers)
+    progs = [sysa.gen_program(seed + 17, i) if i % 3 != 2 else sysa.gen_program_multi(seed + 17, i) for i in range(nprog)]
     checks = collections.Counter()
     sched_sensitive = collections.Counter()
 
@@ -836,6 +839,9 @@ def check_c05(tier, seed):
     nprog, nseeds = (24, 2) if tier == "quick" else (300, 4)
     rng = Rng(seed ^ 0xC05)
     progs = [sysa.gen_program(seed + 5, i) if i % 2 == 0 else sysa.gen_program_multi(seed + 5, i) for i in range(nprog)]
+    # closures created in factory functions, assigned through captured pointers before/after creation (tgen.closurefam)
+    for k in range(16 if tier == "quick" else 150):
+        progs.append({"kind": "src", "name": "closurefam-%d-%d" % (seed, k), "text": tgen.closurefam(Rng(seed * 53 + k))})
     sim_decided = [  # options that add goroutines, file handles or logger lock traffic
         {"report-summaries": True}, {"report-coverage": True}, {"report-paths": True}, {"report-no-callee-sites": True},
         {"report-summaries": True, "report-coverage": True, "report-paths": True, "report-no-callee-sites": True},
